@@ -98,10 +98,19 @@ def gen_cases(tier, seed):
                              "17-255": sum(16 < len(b) <= 255 for b in bufs), "256+": sum(len(b) > 255 for b in bufs)}}
 
 
+def public(line):
+    """the observable part of an iteration: refusal, and (header offset, number, length, data offset) of every report;
+    the private cursor fields (_frame_end, _next_tag_header) are compared with the model only"""
+    import re
+    if line.startswith("iter err"):
+        return "err"
+    return [tuple(m.split(",")[:4]) for m in re.findall(r"\(([^)]*)\)", line)] + [x for x in ("BADRET", "RUNAWAY") if x in line]
+
+
 def judge(case, impl, model, spec=None):
     if crashed(impl):
         return (crash_sig(impl), "the library crashed or hung on " + case)
-    if spec is not None and impl != spec:
+    if spec is not None and public(impl) != public(spec):
         return ("iter:" + ("refusal" if ("err" in impl) != ("err" in spec) else "reports"),
                 "iteration gave '%s', the chain of the buffer is '%s'" % (impl[:200], spec[:200]))
     return None
